@@ -120,6 +120,22 @@ def spec_apply(st, op):
                 raise SpecSkip("negated negative index")
             return out(_cols(rows, [i for i in range(L) if i not in cols]))
         return out(_cols(rows, cols))
+    if k == "gsa":        # ArrayAlignment.get_sub_alignment: sequences and positions by index, kept or omitted
+        sq, ps, nsq, nps = op[1:]
+        if not arr:
+            raise SpecSkip("index-based sub-alignment is an ArrayAlignment method")
+
+        def pick(idx, size, neg):
+            if idx is None:
+                return list(range(size))
+            if any(not -size <= i < size for i in idx):
+                raise SpecSkip("index out of range")
+            norm_ = [i % size for i in idx]
+            return [i for i in range(size) if i not in norm_] if neg else norm_
+        keep_rows, keep_cols = pick(sq, n, nsq), pick(ps, L, nps)
+        if len(set(keep_rows)) != len(keep_rows):
+            raise SpecSkip("duplicate sequences")
+        return out([[rows[r][0], "".join(rows[r][1][c] for c in keep_cols)] for r in keep_rows])
     if k == "ts":
         names, neg = op[1], op[2]
         d = dict(map(tuple, rows))
@@ -232,6 +248,8 @@ def real_apply(x, op, st):
         return x.take_positions(list(op[1]), negate=True) if op[2] else x.take_positions(list(op[1]))
     if k == "ts":
         return x.take_seqs(list(op[1]), negate=True) if op[2] else x.take_seqs(list(op[1]))
+    if k == "gsa":
+        return x.get_sub_alignment(seqs=op[1], pos=op[2], negate_seqs=op[3], negate_pos=op[4])
     if k == "og":
         return x.omit_gap_pos(allowed_gap_frac=FRAC_FLOAT[op[1]], motif_length=op[2])
     if k == "nd":
@@ -281,6 +299,9 @@ def op_kind(op):
         return "tp(negidx)" if any(c < 0 for c in op[1]) else "tp"
     if k == "ts":
         return "ts(negate)" if op[2] else "ts"
+    if k == "gsa":
+        neg = any(i < 0 for idx in op[1:3] if idx for i in idx)
+        return "gsa" + ("(negate)" if op[3] or op[4] else "") + ("(negidx)" if neg else "")
     if k == "og":
         return "og" if op[2] == 1 else "og(motif)"
     if k == "nd":
@@ -476,6 +497,10 @@ def depth1_ops(L, nrows, mt, level):
             ["tp", list(range(L)), True]]
     ops += [["ts", list(range(nrows))[::-1], False], ["ts", [0], False], ["ts", [nrows - 1], False],
             ["ts", [0], True], ["ts", [nrows - 1], True], ["ts", [], False], ["ts", list(range(nrows)), True]]
+    ops += [["gsa", None, [0, L - 1], False, False], ["gsa", None, [L - 1], False, True], ["gsa", None, [-1], False, True],
+            ["gsa", None, [-1, 0], False, False], ["gsa", [nrows - 1], None, True, False], ["gsa", [-1], None, True, False],
+            ["gsa", [-1], None, False, False], ["gsa", [0], [-2, 0], True, True], ["gsa", [-nrows], [-L], True, True],
+            ["gsa", list(range(nrows))[::-1], list(range(L))[::-1], False, False], ["gsa", None, [], False, True]]
     ops += [["og", f, m] for f in ("0", "1/2", "1-eps", "1") for m in (1, 2)] + [["og", "1/4", 2], ["og", "1/2", 3]]
     ops += [["nd", m, g] for m in (1, 2, 3) for g in (False, True)]
     ops += [["fl", p, m] for p in ("true", "false", "const", "varies", "hasA") for m in (1, 2)]
